@@ -140,7 +140,10 @@ def name_search(ctx, cfg, fs):
         calls = [(x, c) for x in fs.family(b) for c in x.calls() if c.is_(r'^params::NamedArg::matches_arg$')]
         got = set()
         for x, c in calls:
-            for r in provenance(x, c.args[2], c.bb, 'term', through=None):
+            rs_ = provenance(x, c.args[2], c.bb, 'term', through=None)
+            # a captured value: look at what the enclosing function put into the closure
+            rs_ = [q for r in rs_ for q in (resolve_upvar(b, x, r.what) or [r] if (r.kind == 'upvar' and x is not b) else [r])]
+            for r in rs_:
                 if r.kind == 'const': got.add('const %s' % r.what)
                 elif r.kind in ('param', 'upvar') and r.what == 'adjacent' or (r.kind in ('param', 'upvar') and 'bool' in str(r.what)): got.add('param')
                 elif r.kind in ('param', 'upvar'): got.add('param')
